@@ -67,10 +67,12 @@ class RemoteLogHandler(mlzlog.Handler):
             subscriptions = self.subscriptions[modname]
         except KeyError:
             return
+        # a level without SECoP name (e.g. critical) is sent under its standard name
+        levelname = LEVEL_NAMES.get(record.levelno) or record.levelname.lower()
         for conn, lev in subscriptions.items():
             if record.levelno >= lev:
                 self.send_log(  # pylint: disable=not-callable
-                    conn, modname, LEVEL_NAMES[record.levelno],
+                    conn, modname, levelname,
                     record.getMessage())
 
     def set_conn_level(self, modname, conn, level):
